@@ -739,56 +739,8 @@ def judge_case(ctx: core.Ctx, rec: dict, answers: list) -> List[str]:
             ctx.count('named-class:' + TAGS.get(type(n).__name__, '?'))
     expected_ids = sorted({n.identifier for n in case.named})
 
-    if getattr(case, 'failing', None) is not None:
-        ctx.count('%s:prelude:%s:%s' % (label, case.prelude, 'raised' if obs.get('failing', ('ok',))[0] == 'exc' else 'returned'))
-        if obs.get('failing', ('exc',))[0] == 'ok' and case.must_raise:
-            problems.append(('store', 'the %s store returned normally' % case.prelude))
-    if obs['store'][0] != 'ok':
-        if ans[0] == 'ok':
-            problems.append(('store', 'storing raised %s for a forest with unique identifiers%s'
-                             % (obs['store'][1], ' (after a rejected store on the same PulseStorage: %s)' % case.prelude
-                                if getattr(case, 'failing', None) is not None else '')))
-        else:
-            ctx.count('%s:store-error' % label)
-    elif ans[0] != 'ok':
-        drifts.append(('PulseStorage.__setitem__ vs QP.C10.storeAll', 'stored', ans))
-    else:
-        model = {e[0]: e[1:] for e in ans[1:]}
-        m_writes = [tok.back.get(t, t) for t in model['writes']]
-        m_docs = {tok.back.get(e[0], e[0]): e[1] for e in model['docs']}
-        m_refs = {tok.back.get(e[0], e[0]): sorted(tok.back.get(t, t) for t in e[1]) for e in model['refs']}
-        # 1. every stored document is valid JSON on its own
-        parsed = {}
-        for i, text in obs['texts'].items():
-            try:
-                parsed[i] = json.loads(text)
-            except Exception as e:  # noqa
-                problems.append(('json', 'document %r is not valid JSON: %s' % (i, e)))
-        # 2. stored identifiers: exactly the named nodes, each once (the model's proved answer)
-        if sorted(m_docs) != expected_ids:
-            drifts.append(('named nodes vs QP.C10.storeAll keys', expected_ids, sorted(m_docs)))
-        if obs['ids'] != sorted(m_docs):
-            problems.append(('named_once', 'stored identifiers %r, expected one entry per named node %r'
-                             % (obs['ids'], sorted(m_docs))))
-        # 3. references: named sub-templates are referenced, never embedded; all references resolve
-        for i, doc in parsed.items():
-            emb = embedded_named(doc)
-            if emb:
-                problems.append(('referenced', 'document %r embeds the named sub-template(s) %r' % (i, emb)))
-            refs = sorted(doc_refs(doc))
-            for r in refs:
-                if r not in obs['ids']:
-                    problems.append(('refs_closed', 'document %r references %r which is not stored' % (i, r)))
-            if i in m_refs and refs != m_refs[i]:
-                problems.append(('referenced', 'document %r references %r, expected %r' % (i, refs, m_refs[i])))
-        # structural agreement (never an alarm): optional keys, order of the puts
-        agree = all(i in m_docs and doc_shape(parsed[i]) == model_doc_shape(m_docs[i], tok) for i in parsed)
-        ctx.count('structural:documents-%s' % ('agree' if agree else 'differ'))
-        if getattr(case, 'pre_other', None):
-            m_writes = [w for w in m_writes if all(w != x.identifier for x in case.pre_other)]   # written by the other storage
-            obs['writes'] = [w for w in obs['writes'] if all(w != x.identifier for x in case.pre_other)]
-        ctx.count('structural:put-order-%s' % ('agree' if obs['writes'] == m_writes else 'differ'))
-        rec['structural'] = agree and obs['writes'] == m_writes
+    def behaviour():
+        """loaded vs original, for everything whose store returned normally (independent of the model)"""
         # 4. the fresh storage loads everything; loaded == original; same declared interface
         loaded = obs.get('loaded', {})
         for n in case.named:
@@ -844,6 +796,60 @@ def judge_case(ctx: core.Ctx, rec: dict, answers: list) -> List[str]:
                     problems.append(('program', 'program of %r differs for parameters %r: original %s, loaded %s'
                                      % (r.identifier, a, _short(po), _short(pl)), r))
                     break
+
+    if getattr(case, 'failing', None) is not None:
+        ctx.count('%s:prelude:%s:%s' % (label, case.prelude, 'raised' if obs.get('failing', ('ok',))[0] == 'exc' else 'returned'))
+        if obs.get('failing', ('exc',))[0] == 'ok' and case.must_raise:
+            problems.append(('store', 'the %s store returned normally' % case.prelude))
+    if obs['store'][0] != 'ok':
+        if ans[0] == 'ok':
+            problems.append(('store', 'storing raised %s for a forest with unique identifiers%s'
+                             % (obs['store'][1], ' (after a rejected store on the same PulseStorage: %s)' % case.prelude
+                                if getattr(case, 'failing', None) is not None else '')))
+        else:
+            ctx.count('%s:store-error' % label)
+    elif ans[0] != 'ok':
+        # the implementation accepted what the model rejects: an accepted store is judged like every other store
+        drifts.append(('PulseStorage.__setitem__ vs QP.C10.storeAll', 'stored', ans))
+        behaviour()
+    else:
+        model = {e[0]: e[1:] for e in ans[1:]}
+        m_writes = [tok.back.get(t, t) for t in model['writes']]
+        m_docs = {tok.back.get(e[0], e[0]): e[1] for e in model['docs']}
+        m_refs = {tok.back.get(e[0], e[0]): sorted(tok.back.get(t, t) for t in e[1]) for e in model['refs']}
+        # 1. every stored document is valid JSON on its own
+        parsed = {}
+        for i, text in obs['texts'].items():
+            try:
+                parsed[i] = json.loads(text)
+            except Exception as e:  # noqa
+                problems.append(('json', 'document %r is not valid JSON: %s' % (i, e)))
+        # 2. stored identifiers: exactly the named nodes, each once (the model's proved answer)
+        if sorted(m_docs) != expected_ids:
+            drifts.append(('named nodes vs QP.C10.storeAll keys', expected_ids, sorted(m_docs)))
+        if obs['ids'] != sorted(m_docs):
+            problems.append(('named_once', 'stored identifiers %r, expected one entry per named node %r'
+                             % (obs['ids'], sorted(m_docs))))
+        # 3. references: named sub-templates are referenced, never embedded; all references resolve
+        for i, doc in parsed.items():
+            emb = embedded_named(doc)
+            if emb:
+                problems.append(('referenced', 'document %r embeds the named sub-template(s) %r' % (i, emb)))
+            refs = sorted(doc_refs(doc))
+            for r in refs:
+                if r not in obs['ids']:
+                    problems.append(('refs_closed', 'document %r references %r which is not stored' % (i, r)))
+            if i in m_refs and refs != m_refs[i]:
+                problems.append(('referenced', 'document %r references %r, expected %r' % (i, refs, m_refs[i])))
+        # structural agreement (never an alarm): optional keys, order of the puts
+        agree = all(i in m_docs and doc_shape(parsed[i]) == model_doc_shape(m_docs[i], tok) for i in parsed)
+        ctx.count('structural:documents-%s' % ('agree' if agree else 'differ'))
+        if getattr(case, 'pre_other', None):
+            m_writes = [w for w in m_writes if all(w != x.identifier for x in case.pre_other)]   # written by the other storage
+            obs['writes'] = [w for w in obs['writes'] if all(w != x.identifier for x in case.pre_other)]
+        ctx.count('structural:put-order-%s' % ('agree' if obs['writes'] == m_writes else 'differ'))
+        rec['structural'] = agree and obs['writes'] == m_writes
+        behaviour()
         # model loader vs implementation loader (on the implementation's documents)
         for k, rid in enumerate(rec['load_ids']):
             a = answers[1 + k]
@@ -972,6 +978,16 @@ def witness(name: str):
     if name == 'numpy_count':
         import numpy
         return [P.RepetitionPT(P.ConstantPT(1, {'A': 1}), numpy.int64(3), identifier='r')], [{}]
+    if name == 'range_hash_collision':
+        body = lambda: P.ConstantPT('d0', {'A': 'i*v0'})
+        return [P.ForLoopPT(body(), 'i', ('n0 + 7', 0, -1), identifier='down1'),
+                P.ForLoopPT(body(), 'i', ('n0 + 7', 0, -2), identifier='down2'),
+                P.ForLoopPT(body(), 'i', (-2, 5), identifier='up2'),
+                P.ForLoopPT(body(), 'i', (-1, 5), identifier='up1')], [{'d0': 1.5, 'v0': 0.25, 'n0': 2}]
+    if name == 'duplicate_identifier':
+        a1 = P.ConstantPT(1, {'A': 1}, identifier='a')
+        a2 = P.ConstantPT(2, {'A': 3}, identifier='a', measurements=[('m', 0, 1)])
+        return [P.SequencePT(a1, P.RepetitionPT(a2, 3), identifier='s')], [{}]
     if name == 'rational_constants':
         t = P.TablePT({'A': [(0, '1/3'), ('7/3', '5/8', 'linear')]}, measurements=[('m', '1/3', '2/3')])
         return [P.RepetitionPT(P.MappingPT(t, parameter_mapping={}, identifier='m'), 'n', identifier='r',
@@ -1064,6 +1080,16 @@ def small_scope(ctx) -> List[Case]:
                             measurement_mapping={'m': 'mm'}, identifier=ident())
         cases.append(Built([outer], backend=['dict', 'fs', 'zip'][len(cases) % 3],
                            assign=[{'d0': 1.5, 'v2': 1 / 3}, {'d0': 1, 'v2': 5000}]))
+    # count-down loops that differ only where CPython hashes collide (-1 / -2, 2**61 / 1, 2**61-1 / 0), in both orders
+    for k, fam in enumerate(c10gen.colliding_ranges('n0')):
+        for order in (0, 1):
+            shift = 10 * (1 + order)            # (the two orders use different ranges: a cache would remember the first)
+            pair = []
+            for r in (fam if order == 0 else list(reversed(fam))):
+                r = tuple((x + shift if isinstance(x, int) and not isinstance(x, bool) and 0 < x < 100 else x) for x in r)
+                pair.append(P.ForLoopPT(P.ConstantPT('d0', {'A': 'i*v0'}), 'i', r, identifier=ident('loop')))
+            cases.append(Built(pair, backend=['dict', 'fs', 'zip'][len(cases) % 3],
+                               assign=[{'d0': 1.5, 'v0': 0.25, 'n0': 2}, {'d0': 1, 'v0': 1 / 3, 'n0': 0}]))
     # AbstractPT: every subset of the declared interface
     keys = ['defined_channels', 'parameter_names', 'measurement_names', 'integral', 'duration']
     vals = {'defined_channels': {'A', 'B'}, 'parameter_names': {'p', 'q'}, 'measurement_names': {'m'},
@@ -1083,22 +1109,89 @@ def small_scope(ctx) -> List[Case]:
     return cases
 
 
+def loaded_problems(backend, pt, assign) -> List[str]:
+    """property-level judge of one stored template against what a fresh storage loads for it"""
+    S = _q()['S']
+    out = []
+    res = outcome(lambda: S.PulseStorage(backend)[pt.identifier])
+    if res[0] != 'ok':
+        return ['loading raised ' + res[1]]
+    l = res[1]
+    if outcome(lambda: bool(l == pt) and bool(pt == l)) != ('ok', True):
+        out.append('loaded != original')
+    if l.identifier != pt.identifier:
+        out.append('identifier')
+    so, sl = static_observables(pt), static_observables(l)
+    out += [k for k in so if so[k] != sl[k]]
+    if not duration_equal(pt, l):
+        out.append('duration')
+    for a in assign:
+        po, pl = guarded(lambda: program_observables(pt, a)), guarded(lambda: program_observables(l, a))
+        if 'timeout' not in (po[0], pl[0]) and not same(po, pl):
+            out.append('program differs for %r' % (a,))
+            break
+    return out
+
+
+def duplicate_identifier_cases(ctx: core.Ctx, n: int = 10):
+    """random trees in which a second, different object re-uses the identifier of a named node of the same store"""
+    P = _q()['P']
+    rng = ctx.fork('duplicate-identifier')
+    out = []
+    for k in range(n):
+        with warnings.catch_warnings():
+            warnings.simplefilter('ignore')
+            try:
+                g = c10gen.Gen(random.Random(rng.getrandbits(48)), p_named=0.6, weird_ids=False)
+                channels = rng.choice([['A'], ['A', 'B']])
+                r1 = g.root(rng.randrange(1, 3), channels)
+                named = [x for x in walk(r1) if x.identifier]
+                victim = rng.choice(named)
+                # another object under the victim's identifier, of a class that differs visibly (also for the model)
+                if TAGS[type(victim).__name__] == 'const':
+                    other = P.PointPT([(0, 0), (1, 1, 'linear')], channels, identifier=victim.identifier)
+                else:
+                    other = P.ConstantPT(1, {c: 0.5 for c in channels}, identifier=victim.identifier)
+                second = other if rng.random() < 0.4 else P.RepetitionPT(other, 2)
+                subs = [r1, second] if rng.random() < 0.5 else [second, r1]
+                root = P.SequencePT(*subs, identifier='dup%d' % k)
+                out.append(('duplicate-identifier-random', [(root.identifier, root)]))
+            except Exception as e:  # noqa
+                ctx.count('generator-rejected:' + type(e).__name__)
+    return out
+
+
 def malformed(ctx: core.Ctx):
     """error paths: model and implementation must agree on the outcome class"""
     Q = _q()
     S, P = Q['S'], Q['P']
     lines, expect = [], []
 
-    def impl_store(ops):
-        ps = S.PulseStorage(S.DictBackend())
+    def impl_store(ops, name='', assign=None):
+        """stores the ops on one PulseStorage; a store that RETURNS NORMALLY is judged like every other store: a fresh
+        storage must load the template back as the original (an accepted-but-wrong store is a concrete violation)"""
+        backend = S.DictBackend()
+        ps = S.PulseStorage(backend)
+        done = []
         try:
             for key, pt in ops:
                 ps[key] = pt
-            return 'ok'
+                done.append((key, pt))
+            res = 'ok'
         except ValueError:
-            return 'value_error'
+            res = 'value_error'
         except RuntimeError:
-            return 'id_taken'
+            res = 'id_taken'
+        with warnings.catch_warnings():
+            warnings.simplefilter('ignore')
+            for key, pt in done:
+                probs = loaded_problems(backend, pt, assign or [{}])
+                if probs:
+                    ctx.violation('the store of %r returned normally but a fresh storage does not load the original back: %s '
+                                  '[malformed stream: %s; template %s]' % (key, ', '.join(probs), name, repr(pt)[:600]),
+                                  {'kind': 'malformed', 'name': name, 'key': key, 'problems': probs,
+                                   'template': repr(pt)[:3000]})
+        return res
 
     a1 = P.ConstantPT(1, {'A': 1}, identifier='a')
     a2 = P.ConstantPT(2, {'A': 1}, identifier='a', measurements=[('m', 0, 1)])   # differs visibly for the model
@@ -1112,18 +1205,22 @@ def malformed(ctx: core.Ctx):
         ('same-object-twice', [('a', a1), ('a', a1), ('p', par1)]),
         ('child-then-parent', [('a', a1), ('p', par1)]),
         ('two-objects-one-id-one-transaction', [('s', P.SequencePT(a1, a2, identifier='s'))]),
+        ('two-objects-one-id-below-unnamed-node', [('s3', P.SequencePT(a1, P.RepetitionPT(a2, 3), identifier='s3'))]),
+        ('two-objects-one-id-first-below-unnamed', [('s4', P.SequencePT(P.RepetitionPT(a2, 3), a1, identifier='s4'))]),
         ('child-with-the-identifier-of-its-root', [('a', P.TimeReversalPT(a1, identifier='a'))]),
         ('same-object-twice-one-transaction', [('s2', P.SequencePT(a1, a1, identifier='s2'))]),
         ('parent-then-child', [('p', par1), ('a', a1)]),
     ]
+    store_cases += duplicate_identifier_cases(ctx)
     for name, ops in store_cases:
-        got = impl_store(ops)
+        got = impl_store(ops, name, [{'d0': 1.5, 'v0': 0.3, 'v1': 1 / 3, 'v2': 2, 'v3': -1, 'n0': 2, 'n1': 1,
+                                      'd1': 1, 'd2': 2, 'd3': 0.75}])
         memo: dict = {}
         lines.append('(c10 store (%s))' % ' '.join(tree_sx(pt, tok, memo) for _k, pt in ops))
         expect.append((name, got))
     # wrong key / anonymous root: the model's storeAll takes the key from the object, so these are judged directly
     for name, ops, want in [('wrong-key', [('b', a1)], 'value_error')]:
-        got = impl_store(ops)
+        got = impl_store(ops, name)
         ctx.case('malformed:' + name, nontrivial=False)
         if got != want:
             ctx.violation('storing under a foreign identifier: %s (expected %s)' % (got, want),
